@@ -132,10 +132,11 @@ def judge_fault(s, g, tree, fault, st, default_ns, use_lxml, xsd):
     sub = set(target.iter())
     local = any(e.elem is target or e.elem is pm.get(target) for e in errs)
     # for child faults the damaged node IS the parent whose child list changed: errors on it count
-    if not local:
+    if not local and kind not in ('dangling_idref', 'dangling_default_idref'):
+        # unresolved IDREFs are document-level errors: the library reports them at the root
         out.append(rec('no_error_at_damaged_node_or_parent', 'an error located at the node or its parent',
                        [e.path for e in errs][:4], []))
-    if kind not in ('dup_key', 'dangling_keyref', 'dup_id', 'dangling_idref'):
+    if kind not in ('dup_key', 'dangling_keyref', 'dup_id', 'dangling_idref', 'dangling_default_idref'):
         outside = [e.path for e in errs if e.elem is not None and e.elem not in anc and e.elem not in sub]
         if outside:
             out.append(rec('error_outside_chain_and_subtree', 'no error outside the ancestor chain and subtree',
@@ -252,7 +253,7 @@ def replay(record):
         if not any(e.elem is target or e.elem is pm.get(target) for e in errs):
             recs.append(rec('no_error_at_damaged_node_or_parent', '', [e.path for e in errs][:4], []))
         outside = [e.path for e in errs if e.elem is not None and e.elem not in anc and e.elem not in sub]
-        if outside and inp['fault'][0] not in ('dup_key', 'dangling_keyref', 'dup_id', 'dangling_idref'):
+        if outside and inp['fault'][0] not in ('dup_key', 'dangling_keyref', 'dup_id', 'dangling_idref', 'dangling_default_idref'):
             recs.append(rec('error_outside_chain_and_subtree', '', outside[:3], []))
     return [r for r in recs if r['kind'] == record['kind']][:1]
 
